@@ -22,6 +22,9 @@ from txtorcon).
                                 circuit created by EXTENDCIRCUIT 0, c_extend, c_built), or None
   ``.attach_log``               every ATTACHSTREAM line received: (line, stream id | None, circuit id | None, code)
   ``.setconf_log``              every SETCONF line received: (line, [(key, value|None), ...] | None)
+  ``.setconf_codes`` / ``.hold_setconf`` / ``.held_setconf`` / ``.release_setconf()`` / ``.setconf_results``
+                                opt-in: tor refuses some SETCONF __LeaveStreamsUnattached (5xx, nothing changes) and/or
+                                its answers are withheld (FIFO) until released
   ``.handler(line)``            ``Session(extra_handler=...)`` callable for the two commands above
 
 ``SocksConn(host, port)``       one fake connection to tor's SOCKS port (a ``sockspipe.SocksPipe`` whose
@@ -60,6 +63,11 @@ class AttachWorld(World):
         self.instructions = {}           # StreamM.inc -> 0 | (circuit id, CircuitM.inc)
         self.attach_log = []
         self.setconf_log = []
+        # opt-in (C09 round 4): tor refuses / the answer to a SETCONF __LeaveStreamsUnattached is under way
+        self.setconf_codes = []          # code of the k-th such SETCONF = setconf_codes[k % len] (empty: all 250)
+        self.hold_setconf = False        # True: the reply is kept in held_setconf until release_setconf()
+        self.held_setconf = []           # encoded replies not yet sent, FIFO
+        self.setconf_results = []        # code given to the k-th SETCONF of that option
         self._next_sid = (BIG_BASE if big_ids else 0) + 1
 
     # ---------------------------------------------------------------- streams
@@ -210,12 +218,28 @@ class AttachWorld(World):
             return wire.err(513, "Unable to parse configuration")
         pairs = [(k, v) for k, v in pairs]
         self.setconf_log.append((line, pairs))
-        for k, v in pairs:
-            if k.lower() == "__leavestreamsunattached":
-                if v not in ("0", "1"):
-                    return wire.err(513, "Unacceptable option value: Boolean values must be 0 or 1")
-                self.leave_unattached = v == "1"
-        return wire.ok()
+        ours = [v for k, v in pairs if k.lower() == "__leavestreamsunattached"]
+        if not ours:
+            return wire.ok()
+        reply = wire.ok()
+        if any(v not in ("0", "1") for v in ours):
+            reply = wire.err(513, "Unacceptable option value: Boolean values must be 0 or 1")
+        elif self.setconf_codes:
+            code = self.setconf_codes[len(self.setconf_results) % len(self.setconf_codes)]
+            if code != 250:
+                reply = wire.err(code, "Unable to set option")
+        self.setconf_results.append(reply["code"])
+        if reply["code"] == 250:
+            # tor acts when it reads the command; the answer may still be under way
+            self.leave_unattached = ours[-1] == "1"
+        if self.hold_setconf:
+            self.held_setconf.append(reply)
+            return None
+        return reply
+
+    def release_setconf(self):
+        """The oldest withheld SETCONF reply (dict) leaves tor now, or None."""
+        return self.held_setconf.pop(0) if self.held_setconf else None
 
     def handler(self, line):
         if line.startswith("ATTACHSTREAM"):
